@@ -1,6 +1,9 @@
 """C04 — active_vertices_connected holds exactly for connected (or tree) active sets."""
+import copy
+
 import exprio
 import graphcap
+import graphcap2
 import vlib
 
 PROPS = "Props/C04.v"
@@ -22,7 +25,20 @@ RULE = ("tie P (program capture): for every (graph | grid shape) x argument-form
         "independently written orthogonal adjacency); the native-operator node really posted is decoded and "
         "evaluated by the Coq meaning gsem_avc and compared with the same oracle; the Coq specification "
         "(connected_b / tree_b) is validated against the oracle; z3 models are re-checked by the Coq certificate "
-        "checker and the Coq certificate construction of the completeness proof is replayed on the real program.")
+        "checker and the Coq certificate construction of the completeness proof is replayed on the real program.  "
+        "Hardening round (tie and search alike): ONE Graph object that is used, extended with add_edge and used again "
+        "(fresh Solver per call or one Solver accumulating the calls; each call is compared with the model on the graph "
+        "and the Solver state as they are at that moment); two calls on one Solver with separate or the same is_active "
+        "variables (satisfiable iff both patterns are accepted); the Graph object, the is_active container and "
+        "config.use_graph_primitive are unchanged by a call; edges stored (larger, smaller) / mixed / reordered, cycles "
+        "closed by a reversed edge or made of reversed / parallel edges (also with the closing edge added after a first "
+        "use); wheels, K5-K7, prisms, K33, Petersen, long paths / cycles with chords, two cycles (all patterns up to 8 "
+        "vertices); boards 4x5 .. 7x7 with snakes, spirals, combs, rings, diagonals, X shapes and single-cell "
+        "perturbations; is_active as tuple / deque / user Sequence / BoolArray1D (incl. built from a generator, a "
+        "slice) / BoolArray2D built from generators; one-shot iterables as is_active (TypeError, or exactly the "
+        "behaviour of the materialised list); Python constants mixed with variables; every spelling of the options "
+        "that selects the auxiliary encoding (keyword given / omitted / configuration, graph= by keyword); a native "
+        "node met where the auxiliary encoding is expected is judged by its Coq meaning against the oracle.")
 TRUSTED = [
     "reading of the property: 'induce a connected subgraph' = Graph/GraphModel.v::connected (walks through active "
     "vertices), 'induce a tree' = connected and #(edges with two distinct active endpoints, parallel edges counted "
@@ -46,6 +62,10 @@ ERR = {1: "IndexError", 2: "KeyError", 3: "AssertionError", 4: "TypeError", 5: "
 
 FORMS = ["array1", "vars", "neg", "and", "or", "const", "shared", "mixed", "tuple"]
 BAD_FORMS = ["short", "long", "int", "intexpr", "none"]
+# hardening round: other Sequence containers (same trees, different container object) ...
+CONTAINER_FORMS = ["c:" + k for k in graphcap2.CONTAINERS if k not in ("list", "tuple", "array1")]
+# ... and one-shot iterables (not a Sequence: TypeError, or exactly the program of the materialised list)
+ONESHOT_FORMS = ["o:" + k for k in graphcap2.ONESHOTS]
 
 
 def bits(p):
@@ -91,8 +111,27 @@ def make_acts(s, n, form, rng):
             v, w = pool[rng.randrange(len(pool))], pool[rng.randrange(len(pool))]
             fl.append([v, ~v, v & w, v | w, True, False, (v == w) & ~(v ^ w), (x >= 2) | v][c])
         return fl, fl, "S"
+    if form.startswith("c:"):
+        kind = form[2:]
+        c = rng.randrange(3)
+        vs = [s.bool_var() for _ in range(n)]
+        fl = vs if c == 0 else ([~v for v in vs] if c == 1 else [v | vs[0] for v in vs])
+        return graphcap2.as_container(kind, fl), fl, ("A1" if kind.startswith("array1") else "S")
+    if form.startswith("o:"):
+        vs = [s.bool_var() for _ in range(n)]
+        fl = vs if rng.random() < 0.5 else [~v for v in vs]
+        it, mat = graphcap2.as_oneshot(form[2:], fl)
+        return it, mat, "S"
     # malformed stream
     base = [s.bool_var() for _ in range(n)]
+    if form == "nestedgen":  # a generator as one ENTRY of the list: not an expression (serialised like None)
+        k = rng.randrange(n) if n else 0
+        fl = list(base)
+        trees = list(base)
+        if n:
+            fl[k] = (v for v in [base[k]])
+            trees[k] = None
+        return fl, trees, "S"
     if form == "short":
         fl = base[:rng.randrange(n)] if n else base
         return fl, fl, "S"
@@ -125,6 +164,12 @@ def make_grid_arg(s, h, w, form, rng):
         other = s.bool_array((h, w))
         a2 = arr & other
         return a2, list(a2.data)
+    if form == "gen2" and h >= 1:  # BoolArray2D built from a generator of row generators
+        data = list(arr.data)
+        return BoolArray2D((data[y * w + x] for x in range(w)) for y in range(h)), data
+    if form in ("gen2", "flatgen"):  # BoolArray2D built from a one-shot flat iterable and a shape
+        data = [~v for v in arr.data]
+        return BoolArray2D(iter(data), (h, w)), data
     data = []
     for v in arr.data:
         c = rng.randrange(5)
@@ -161,18 +206,33 @@ def opt_tok(cfg, acyclic, ugp):
     return "%d %d %s" % (int(cfg), int(acyclic), "N" if ugp is None else str(int(ugp)))
 
 
-def call_impl(s, arg, g, cfg, acyclic, ugp, how):
-    """how: kw | default (leave out options that have their default value)"""
+def call_raw(s, arg, g, cfg, acyclic, ugp, how, probe=None):
+    """how: kw | default (leave out options that have their default value) | graphkw (kw, and graph= by keyword);
+    probe: list that receives config.use_graph_primitive as it is right after the call"""
+    from cspuz.configuration import config
     from cspuz.graph import active_vertices_connected
     kw = {}
-    if how == "kw" or acyclic:
+    if how in ("kw", "graphkw") or acyclic:
         kw["acyclic"] = acyclic
-    if how == "kw" or ugp is not None:
+    if how in ("kw", "graphkw") or ugp is not None:
         kw["use_graph_primitive"] = ugp
     with cfg_prim(cfg):
-        if g is None:
-            return vlib.guarded(active_vertices_connected, s, arg, **kw)
-        return vlib.guarded(active_vertices_connected, s, arg, g, **kw)
+        try:
+            if g is None:
+                return active_vertices_connected(s, arg, **kw)
+            if how == "graphkw":
+                return active_vertices_connected(s, arg, graph=g, **kw)
+            return active_vertices_connected(s, arg, g, **kw)
+        finally:
+            if probe is not None:
+                probe.append(config.use_graph_primitive)
+
+
+def call_impl(s, arg, g, cfg, acyclic, ugp, how, probe=None):
+    return vlib.guarded(call_raw, s, arg, g, cfg, acyclic, ugp, how, probe)
+
+
+CALL_STYLES = ["kw", "default", "graphkw"]
 
 
 def snap(s):
@@ -221,6 +281,18 @@ def correspond(ctx):
     rng = ctx.rng
     reqs, metas = [], []
 
+    def call_checked(inp, s, arg, g, cfg, acy, ugp, how):
+        """the call, plus: the Graph object, the is_active container and the configuration are as before"""
+        gsnap = graphcap2.graph_snapshot(g) if g is not None else None
+        items = list(arg) if isinstance(arg, (list, tuple)) else None
+        probe = []
+        r = call_impl(s, arg, g, cfg, acy, ugp, how, probe)
+        after = (graphcap2.graph_snapshot(g) if g is not None else None,
+                 None if items is None else (len(arg) == len(items) and all(a is b for a, b in zip(arg, items))),
+                 probe[0] is cfg)
+        ctx.corr("arguments-unchanged", inp, (gsnap, None if items is None else True, True), after)
+        return r
+
     def graph_case(n, es, form, opts, style):
         from cspuz import Solver
         cfg, acy, ugp = opts
@@ -230,10 +302,11 @@ def correspond(ctx):
         g = graphcap.mk_graph(n, es)
         pre = exprio.show_state(s)
         ltok = exprio.show_list(trees)
-        r = call_impl(s, arg, g, cfg, acy, ugp, rng.choice(["kw", "default"]))
+        inp = ("graph", n, tuple(es), form, opts, style, ltok)
+        r = call_checked(inp, s, arg, g, cfg, acy, ugp, rng.choice(CALL_STYLES))
         impl = snap(s) if r[0] == "ok" else r
         reqs.append("P %s G %s %s ST %s L %s" % (opt_tok(cfg, acy, ugp), graphcap.graph_tok(n, es), cf, pre, ltok))
-        metas.append((("graph", n, tuple(es), form, opts, style, ltok), impl))
+        metas.append((inp, impl))
         ctx.count("form:" + form)
         ctx.count("options:cfg=%d,acyclic=%d,ugp=%s" % (cfg, acy, ugp))
 
@@ -304,12 +377,90 @@ def correspond(ctx):
         for form in ("vars", "array1", "const", "tuple"):
             nograph_case(n, form, rng.choice(OPTIONS))
 
+    # ---- hardening round: containers, one-shot iterables, structured graphs, big grids, histories ----------
+    def aux_route(opts):
+        cfg, acy, ugp = opts
+        return acy or not (cfg if ugp is None else ugp)
+
+    fixed = [(1, []), (2, [(1, 0)]), (3, [(0, 1), (2, 1), (1, 2)]), (4, [(2, 3), (0, 1)]), (4, [(0, 1), (1, 2), (2, 3), (3, 0)]),
+             (0, [])]
+    for n, es in fixed + [graphcap.random_multigraph(rng, 7) for _ in range(30 if ctx.thorough else 8)]:
+        for form in CONTAINER_FORMS + ONESHOT_FORMS + ["nestedgen"]:
+            for opts in OPTIONS:
+                if form == "nestedgen" and not aux_route(opts):
+                    continue  # the native node is posted unchecked; not serialisable
+                ctx.count("graphs:containers")
+                graph_case(n, es, form, opts, rng.randrange(3))
+    for name, n, es in graphcap2.structured_graphs(ctx.thorough) + graphcap2.reversed_cycles(7):
+        for form in ["vars", "mixed", rng.choice(CONTAINER_FORMS)]:
+            for opts in [(False, False, None), (False, True, None), rng.choice(OPTIONS)]:
+                ctx.count("graphs:structured")
+                graph_case(n, es if rng.random() < 0.5 else graphcap2.mixed_orientation(rng, es), form, opts, rng.randrange(3))
+    for h, w in [(5, 6), (6, 5), (7, 7), (2, 7), (1, 13), (4, 5)] + ([(9, 9), (3, 10)] if ctx.thorough else []):
+        for form in ["vars", "mixed", "gen2", "flatgen"]:
+            for opts in [(False, False, None), (False, True, None), rng.choice(OPTIONS)]:
+                ctx.count("graphs:grid-large")
+                grid_case(h, w, form, opts, rng.randrange(3))
+    for h, w in [(1, 1), (2, 3), (3, 3), (0, 2), (2, 0), (1, 5)]:
+        for form in ["gen2", "flatgen"]:
+            for opts in OPTIONS:
+                ctx.count("graphs:grid-generator-built")
+                grid_case(h, w, form, opts, rng.randrange(3))
+
+    # histories: ONE Graph object that is used, extended with add_edge, and used again (on one Solver that
+    # accumulates the calls, or on a fresh Solver per call); every call is compared with the model on the graph
+    # as it is at that moment and the state the Solver really had before the call
+    def history_graphs():
+        for name, n, es in graphcap2.reversed_cycles(6):
+            yield n, es, [len(es) - 1, len(es)]
+        for n, es in graphcap.all_multigraphs(4, 4):
+            if len(es) >= 2 and rng.random() < (0.6 if ctx.thorough else 0.15):
+                yield n, graphcap2.mixed_orientation(rng, es), None
+        for _ in range(300 if ctx.thorough else 70):
+            n, es = graphcap.random_multigraph(rng, 7, loops=rng.random() < 0.15)
+            if es:
+                yield n, es, None
+
+    from cspuz import Solver
+    for n, es, cuts in history_graphs():
+        H = graphcap2.GraphHistory(n, es)
+        if cuts is None:
+            cuts = graphcap2.random_cuts(rng, len(es)) + [len(es)] + ([len(es)] if rng.random() < 0.4 else [])
+        shared = rng.random() < 0.5
+        s = Solver()
+        if shared:
+            pre_state(s, rng.randrange(3))
+        for step, cut in enumerate(cuts):
+            g = H.advance(cut)
+            cur = H.current_edges()
+            if not shared:
+                s = Solver()
+                pre_state(s, rng.randrange(3))
+            form = rng.choice(["vars", "array1", "neg", "mixed", "tuple", "const", "c:deque"])
+            opts = rng.choice(OPTIONS) if rng.random() < 0.4 else (False, rng.random() < 0.5, None)
+            cfg, acy, ugp = opts
+            arg, trees, cf = make_acts(s, n, form, rng)
+            pre = exprio.show_state(s)
+            ltok = exprio.show_list(trees)
+            inp = ("history", n, tuple(cur), step, shared, form, opts, ltok, len(s.variables), len(s.constraints))
+            r = call_checked(inp, s, arg, g, cfg, acy, ugp, rng.choice(CALL_STYLES))
+            impl = snap(s) if r[0] == "ok" else r
+            reqs.append("P %s G %s %s ST %s L %s" % (opt_tok(cfg, acy, ugp), graphcap.graph_tok(n, cur), cf, pre, ltok))
+            metas.append((inp, impl))
+            ctx.count("graphs:history-%s-step%d" % ("one-solver" if shared else "fresh-solver", min(step, 3)))
+
     outs = m.batch(reqs)
     for (inp, impl), o in zip(metas, outs):
         mo = parse_post(o)
         if mo[0] == "err" or impl[0] == "err":
             ctx.count("outcome:" + (impl[1] if impl[0] == "err" else "ok-vs-model-err"))
-        ctx.corr("posted-program", inp, mo, impl)
+        if inp[0] == "graph" and inp[3].startswith("o:"):
+            # a one-shot iterable is not a Sequence: TypeError is fine; if the call goes through, the program must
+            # be the one of the materialised list
+            ctx.count("one-shot:" + ("TypeError" if impl == ("err", "TypeError") else "accepted"))
+            ctx.corr("one-shot-is_active", inp, impl if impl == ("err", "TypeError") else mo, impl)
+            continue
+        ctx.corr("history-posted-program" if inp[0] == "history" else "posted-program", inp, mo, impl)
 
 
 # ---------------------------------------------------------------- search
@@ -319,25 +470,89 @@ def key_of(n, edges, acyclic, pat, how="vars"):
                                                   "".join("1" if b else "0" for b in pat))
 
 
-def posted(n, edges, acyclic, how="vars", pat=None, grid=None):
-    """the program really posted.  how: vars (fresh variables), neg (~v), const (Python bools of `pat`),
-    grid=(h, w): BoolArray2D form without a graph"""
+AUX_OPTS = {False: [(False, None), (True, False), (False, False)],
+            True: [(False, None), (True, False), (False, False), (True, None), (True, True), (False, True)]}
+SEARCH_HOWS = ["vars", "neg", "tuple", "deque", "userseq", "array1", "array1-gen", "array1-slice"]
+GRID_HOWS = ["vars", "grid-neg", "grid-gen2", "grid-flatgen"]
+
+
+def posted(n, edges, acyclic, how="vars", pat=None, grid=None, opts=None, hist=None, mask=None):
+    """the program really posted; returns (solver, per-vertex variables to fix (None = Python constant), aux vars).
+    how: vars (fresh variables) | neg (~v) | const (Python bools of `pat`) | mixedconst (Python bools of `pat`
+         where mask is set, variables elsewhere) | a graphcap2 container kind | a graphcap2 one-shot kind;
+         with grid=(h, w): BoolArray2D form without a graph (vars | grid-neg | grid-gen2 | grid-flatgen)
+    opts: (config.use_graph_primitive, use_graph_primitive argument, call style) - must select the auxiliary encoding
+    hist: [[cut, acyclic, 'aux'|'prim', shared], ...] earlier uses of the SAME Graph object when it only had
+          edges[:cut] (on the same Solver if shared, else on a throw-away Solver)"""
+    from cspuz.array import BoolArray2D
     from cspuz.graph import active_vertices_connected
     from cspuz import Solver
+    cfg, ugp, style = opts if opts else (False, None, "kw")
     s = Solver()
+    if grid is not None:
+        h, w = grid
+        arr = s.bool_array(grid)
+        vs = list(arr.data)
+        if how == "grid-neg":
+            arg = BoolArray2D([~v for v in vs], grid)
+        elif how == "grid-gen2" and h >= 1:
+            arg = BoolArray2D((vs[y * w + x] for x in range(w)) for y in range(h))
+        elif how in ("grid-gen2", "grid-flatgen"):
+            arg = BoolArray2D(iter(vs), grid)
+        else:
+            arg = arr
+        before = len(s.variables)
+        call_raw(s, arg, None, cfg, acyclic, ugp, style)
+        return s, vs, s.variables[before:]
+    H = graphcap2.GraphHistory(n, edges)
+    for (cut, h_acy, h_route, shared) in (hist or []):
+        g = H.advance(cut)
+        hs = s if shared else Solver()
+        hv = [hs.bool_var() for _ in range(n)]
+        with cfg_prim(False):
+            active_vertices_connected(hs, hv, g, acyclic=h_acy, use_graph_primitive=(h_route == "prim"))
+    g = H.finish()
+    vs = [s.bool_var() for _ in range(n)]
+    if how == "const":
+        arg, vs = [bool(b) for b in pat], [None] * n
+    elif how == "mixedconst":
+        arg = [bool(pat[i]) if mask[i] else vs[i] for i in range(n)]
+        vs = [None if mask[i] else vs[i] for i in range(n)]
+    elif how == "neg" or how == "grid-neg":
+        arg = [~v for v in vs]
+    elif how == "vars":
+        arg = vs
+    elif how in graphcap2.CONTAINERS:
+        arg = graphcap2.as_container(how, vs)
+    elif how in graphcap2.ONESHOTS:
+        arg, vs = graphcap2.as_oneshot(how, vs)
+    else:
+        raise ValueError(how)
+    before = len(s.variables)
+    call_raw(s, arg, g, cfg, acyclic, ugp, style)
+    return s, vs, s.variables[before:]
+
+
+def posted_two(sc):
+    """two calls on one Solver; the first on the Graph object while it has edges[:cut], the second on the same
+    object completed (mode extended / twice) or on another graph (two-graphs)"""
+    from cspuz.graph import active_vertices_connected
+    from cspuz import Solver
+    n, es, es2 = sc["n"], [tuple(e) for e in sc["edges"]], [tuple(e) for e in sc["edges2"]]
+    s = Solver()
+    H = graphcap2.GraphHistory(n, es)
+    vs1 = [s.bool_var() for _ in range(n)]
     with cfg_prim(False):
-        if grid is not None:
-            arr = s.bool_array(grid)
-            active_vertices_connected(s, arr, acyclic=acyclic)
-            return s, list(arr.data)
-        g = graphcap.mk_graph(n, edges)
-        if how == "const":
-            active_vertices_connected(s, [bool(b) for b in pat], g, acyclic=acyclic)
-            return s, []
-        vs = [s.bool_var() for _ in range(n)]
-        acts = [~v for v in vs] if how == "neg" else vs
-        active_vertices_connected(s, acts, g, acyclic=acyclic)
-    return s, vs
+        active_vertices_connected(s, vs1, H.advance(sc["cut"]), acyclic=sc["acyclic"][0])
+        g2 = graphcap.mk_graph(n, es2) if sc["mode"] == "two-graphs" else H.finish()
+        vs2 = vs1 if sc["same_vars"] else [s.bool_var() for _ in range(n)]
+        active_vertices_connected(s, vs2, g2, acyclic=sc["acyclic"][1])
+    return s, vs1, vs2
+
+
+def is_prim_node(c):
+    from cspuz.expr import Op
+    return getattr(c, "op", None) == Op.GRAPH_ACTIVE_VERTICES_CONNECTED
 
 
 def oracle(n, edges, acyclic, pat):
@@ -413,6 +628,7 @@ def search(ctx):
     rng = ctx.rng
     spec_reqs, spec_meta = [], []
     cert_reqs, cert_meta = [], []
+    prim_reqs, prim_meta = [], []
     wit_jobs = []
 
     def report(key, got, want, acyclic, detail):
@@ -421,23 +637,55 @@ def search(ctx):
             ("induce a tree / are empty" if acyclic else "are connected") if want else
             ("do not induce a tree" if acyclic else "are not connected")), detail)
 
-    def run_patterns(kind, n, es, acyclic, pats, grid=None):
-        how = "vars" if grid is not None or rng.random() < 0.7 else "neg"
-        r = vlib.guarded(posted, n, es, acyclic, how, None, grid)
-        tag = ("grid%dx%d" % grid) if grid else how
+    def scen_tag(how, grid, opts, hist):
+        tag = (("grid%dx%d" % tuple(grid)) + ("" if how == "vars" else ":" + how)) if grid else how
+        if opts:
+            tag += ":cfg=%d,ugp=%s,%s" % (int(opts[0]), opts[1], opts[2])
+        if hist:
+            tag += ":hist=" + ";".join("%d%s%s%s" % (c, "a" if ha else "c", r[0], "s" if sh else "f") for c, ha, r, sh in hist)
+        return tag
+
+    def run_patterns(kind, n, es, acyclic, pats, grid=None, how=None, opts=None, hist=None):
+        """every pattern of `pats`: satisfiability of the really posted program (scenario = how / opts / hist, see
+        `posted`) against the oracle on the graph as it is at the moment of the call"""
+        if how is None:
+            how = "vars" if grid is not None or rng.random() < 0.7 else "neg"
+        r = vlib.guarded(posted, n, es, acyclic, how, None, grid, opts, hist)
+        tag = scen_tag(how, grid, opts, hist)
+        scen = {"n": n, "edges": es, "acyclic": acyclic, "how": how, "grid": grid, "opts": opts, "hist": hist}
+        ctx.count("search-scenario:how=" + how)
+        if hist:
+            ctx.count("search-scenario:graph-object-reused")
+        if opts:
+            ctx.count("search-scenario:options-given")
         if r[0] == "err":
+            if how in graphcap2.ONESHOTS and r[1] == "TypeError":
+                ctx.count("search-one-shot:TypeError")
+                return  # not a Sequence; accepted behaviour
             ctx.violation("avc:%s:acyclic=%d:n=%d:e=%s:raises" % (tag, acyclic, n, ",".join("%d-%d" % e for e in es)),
-                          "active_vertices_connected raises on a well-formed call",
-                          {"n": n, "edges": es, "acyclic": acyclic, "error": r[1], "grid": grid})
+                          "active_vertices_connected raises on a well-formed call", dict(scen, error=r[1]))
             return
-        s, vs = r[1]
-        check = graphcap.z3_session(s)
-        aux = s.variables[n:]
+        s, vs, aux = r[1]
+        neg = how in ("neg", "grid-neg")
         if pats is None:
             pats = list(graphcap.patterns(n))
+        if any(is_prim_node(c) for c in s.constraints):
+            # the auxiliary encoding was asked for (by acyclic=True or by the options) but a native node was posted:
+            # its meaning (Coq gsem_avc: connectivity of the decoded graph and pattern) is compared with the oracle
+            ctx.count("search-scenario:native-node-where-auxiliary-encoding-expected")
+            if len(s.constraints) == 1:
+                for pat in pats:
+                    env = [False] * len(s.variables)
+                    for v, b in zip(vs, pat):
+                        env[v.id] = (not b) if neg else b
+                    prim_reqs.append("H E %s B %s" % (exprio.show(s.constraints[0]), bits(env)))
+                    prim_meta.append((key_of(n, es, acyclic, pat, tag), acyclic, oracle(n, es, acyclic, pat),
+                                      dict(scen, pattern=[int(b) for b in pat])))
+            return
+        check = graphcap.z3_session(s)
         for pat in pats:
             want = oracle(n, es, acyclic, pat)
-            fixed = [(v, (not b) if how == "neg" else b) for v, b in zip(vs, pat)]
+            fixed = [(v, (not b) if neg else b) for v, b in zip(vs, pat)]
             sample = m is not None and rng.random() < 0.06
             if sample and want:
                 got, model = check(fixed, want_model=True)
@@ -447,8 +695,7 @@ def search(ctx):
             ctx.count("pattern:" + ("acyclic-" if acyclic else "") + ("accepted" if want else "rejected"))
             if got != want:
                 report(key_of(n, es, acyclic, pat, tag), got, want, acyclic,
-                       {"n": n, "edges": es, "acyclic": acyclic, "how": how, "grid": grid,
-                        "pattern": [int(b) for b in pat], "expected_satisfiable": want, "observed_satisfiable": got})
+                       dict(scen, pattern=[int(b) for b in pat], expected_satisfiable=want, observed_satisfiable=got))
             if m is not None and (len(pats) <= 64 or rng.random() < 0.3):
                 spec_reqs.append("SPEC %d %s B %s" % (acyclic, graphcap.graph_tok(n, es), bits(pat)))
                 spec_meta.append((n, es, acyclic, pat, want))
@@ -461,6 +708,19 @@ def search(ctx):
             if sample and want and len(aux) == 2 * n and not (acyclic and any(a == b for a, b in es)):
                 wit_jobs.append((n, es, acyclic, pat, check, fixed, aux))
 
+    def rand_opts(acyclic):
+        cfg, ugp = rng.choice(AUX_OPTS[bool(acyclic)])
+        return [cfg, ugp, rng.choice(CALL_STYLES)]
+
+    def rand_hist(m_edges, cuts=None, allow_shared=True):
+        """earlier uses of the Graph object while it had fewer edges (and, sometimes, once more when complete)"""
+        cuts = cuts if cuts is not None else graphcap2.random_cuts(rng, m_edges, 2)
+        hist = [[c, rng.random() < 0.5, "aux" if rng.random() < 0.8 else "prim", False] for c in cuts]
+        if allow_shared and rng.random() < 0.4:
+            for hh in hist:
+                hh[2], hh[3] = "aux", True
+        return hist
+
     for kind, n, es, pats in search_graphs(ctx):
         loops = any(a == b for a, b in es)
         for acyclic in (False, True):
@@ -468,6 +728,42 @@ def search(ctx):
                 continue  # 'tree' is read on loop-free graphs (see ASSUMPTIONS)
             ctx.count("search-graphs:" + kind)
             run_patterns(kind, n, es, acyclic, pats)
+            if kind in ("small", "loops") and es:
+                # the same graph stored differently ((larger, smaller), mixed, other order); as a Graph object that
+                # was already used while it had fewer edges; with the options / container spelled differently
+                c = rng.randrange(3)
+                if c == 0 or ctx.thorough or ctx.deep:
+                    nm, es2 = rng.choice(list(graphcap2.orientation_variants(rng, es)))
+                    ctx.count("search-graphs:small-" + nm)
+                    run_patterns(kind, n, es2, acyclic, pats)
+                if c == 1 or ctx.thorough or ctx.deep:
+                    ctx.count("search-graphs:small-history")
+                    run_patterns(kind, n, graphcap2.mixed_orientation(rng, es) if rng.random() < 0.5 else es, acyclic, pats,
+                                 hist=rand_hist(len(es)))
+                if c == 2 or ctx.thorough or ctx.deep:
+                    ctx.count("search-graphs:small-options-containers")
+                    run_patterns(kind, n, es, acyclic, pats, how=rng.choice(SEARCH_HOWS + graphcap2.ONESHOTS),
+                                 opts=rand_opts(acyclic))
+    # cycles closed by a reversed edge / made of reversed or parallel edges: fresh, and with the closing edge added
+    # to a Graph object that was already used as a path
+    for name, n, es in graphcap2.reversed_cycles(8 if ctx.thorough else 7):
+        for acyclic in (False, True):
+            ctx.count("search-graphs:reversed-cycles")
+            run_patterns("revcycle", n, es, acyclic, None, how="vars")
+            run_patterns("revcycle", n, es, acyclic, None, how=rng.choice(SEARCH_HOWS), opts=rand_opts(acyclic),
+                         hist=[[len(es) - 1, bool(rng.randrange(2)), "aux", bool(rng.randrange(2))]])
+            run_patterns("revcycle", n, es, acyclic, None, how="vars", hist=[[len(es) - 1, acyclic, "aux", False]])
+    # structured graphs just beyond the exhaustive scope (rank-range stress: K_n needs n distinct ranks when
+    # acyclic, a path needs depth n // 2), in canonical and mixed orientation, fresh and with a history
+    for k, (name, n, es) in enumerate(graphcap2.structured_graphs(ctx.thorough)):
+        for acyclic in (False, True):
+            ctx.count("search-graphs:structured")
+            pats = None if n <= 8 else biased_patterns(rng, n, es, 250 if ctx.thorough else 120)
+            run_patterns("structured", n, es, acyclic, pats, how="vars")
+            pats = None if n <= 7 else biased_patterns(rng, n, es, 100 if ctx.thorough else 40)
+            run_patterns("structured", n, graphcap2.mixed_orientation(rng, es), acyclic, pats,
+                         how=SEARCH_HOWS[(k + acyclic) % len(SEARCH_HOWS)], opts=rand_opts(acyclic),
+                         hist=rand_hist(len(es)) if (k + acyclic) % 2 else None)
     # the array form on grids, oracle on an independently written adjacency
     grids = [(1, 1), (1, 2), (2, 1), (1, 4), (3, 1), (2, 2), (2, 3), (3, 2), (3, 3), (2, 4)]
     if ctx.thorough or ctx.deep:
@@ -477,33 +773,105 @@ def search(ctx):
         for acyclic in (False, True):
             ctx.count("search-graphs:grid")
             run_patterns("grid", h * w, es, acyclic, None if h * w <= 9 else biased_patterns(rng, h * w, es, 150), grid=(h, w))
+            if h * w <= 8 or ctx.thorough:
+                run_patterns("grid", h * w, es, acyclic, None if h * w <= 9 else biased_patterns(rng, h * w, es, 60),
+                             grid=(h, w), how=rng.choice(GRID_HOWS[1:]), opts=rand_opts(acyclic))
     for (h, w) in [(4, 4), (3, 5), (5, 4)]:
         es = graphcap.grid_edges(h, w)
         for acyclic in (False, True):
             ctx.count("search-graphs:grid")
             run_patterns("grid", h * w, es, acyclic, biased_patterns(rng, h * w, es, 60 if not ctx.thorough else 300), grid=(h, w))
+    # larger boards with targeted patterns: snakes / spirals / combs (long induced paths and trees: rank depth),
+    # rings (a cycle), diagonal chains and X shapes (not connected), and single-cell perturbations of them
+    big = [(5, 6), (6, 5), (4, 5), (5, 5), (2, 7), (7, 7)] + ([(7, 2), (6, 6), (3, 9), (8, 8)] if ctx.thorough else [])
+    for k, (h, w) in enumerate(big):
+        es = graphcap.grid_edges(h, w)
+        for acyclic in (False, True):
+            ctx.count("search-graphs:grid-large")
+            pats = [p for (_, p) in graphcap2.grid_patterns(rng, h, w, 8 if ctx.thorough else 4)]
+            run_patterns("grid", h * w, es, acyclic, pats, grid=(h, w), how=GRID_HOWS[(k + acyclic) % len(GRID_HOWS)],
+                         opts=rand_opts(acyclic) if k % 2 else None)
+    # the same boards given as an explicit graph (larger-first edges) with a flat sequence
+    for (h, w) in [(5, 6), (3, 7)]:
+        es = graphcap2.larger_first(graphcap.grid_edges(h, w))
+        for acyclic in (False, True):
+            ctx.count("search-graphs:grid-as-graph")
+            run_patterns("grid-as-graph", h * w, es, acyclic, [p for (_, p) in graphcap2.grid_patterns(rng, h, w, 2)],
+                         how=rng.choice(SEARCH_HOWS), hist=rand_hist(len(es)))
 
-    # Python constants as is_active: the program itself must be (un)satisfiable
+    # Python constants as is_active (all of them, or mixed with variables): the program itself must be (un)satisfiable
     const_graphs = [(n, es) for n, es in graphcap.all_multigraphs(4, 4 if not ctx.thorough else 5)
                     if rng.random() < (1.0 if ctx.thorough else 0.25)]
+    const_graphs += [(n, es) for (_, n, es) in graphcap2.reversed_cycles(4)] + [(5, graphcap2.complete_edges(5))]
     for n, es in const_graphs:
         for pat in graphcap.patterns(n):
             if not ctx.thorough and rng.random() < 0.5:
                 continue
             for acyclic in (False, True):
-                r = vlib.guarded(posted, n, es, acyclic, "const", pat)
+                how, mask, opts, hist = "const", None, None, None
+                if rng.random() < 0.5:
+                    how, mask = "mixedconst", [rng.random() < 0.5 for _ in range(n)]
+                if rng.random() < 0.3:
+                    opts = rand_opts(acyclic)
+                if es and rng.random() < 0.3:
+                    hist = rand_hist(len(es), allow_shared=False)
+                r = vlib.guarded(posted, n, es, acyclic, how, pat, None, opts, hist, mask)
                 want = oracle(n, es, acyclic, pat)
-                ctx.prop_case("const-sat-vs-oracle", (n, tuple(es), acyclic, pat))
+                tag = scen_tag(how, None, opts, hist) + ("" if mask is None else ":mask=" + bits(mask).replace(" ", ""))
+                scen = {"n": n, "edges": es, "acyclic": acyclic, "how": how, "grid": None, "opts": opts, "hist": hist,
+                        "mask": mask, "pattern": [int(b) for b in pat]}
+                ctx.prop_case("const-sat-vs-oracle", (tag, n, tuple(es), acyclic, pat))
                 if r[0] == "err":
-                    ctx.violation(key_of(n, es, acyclic, pat, "const") + ":raises",
-                                  "active_vertices_connected raises on Python constants",
-                                  {"n": n, "edges": es, "acyclic": acyclic, "pattern": [int(b) for b in pat], "error": r[1]})
+                    ctx.violation(key_of(n, es, acyclic, pat, tag) + ":raises",
+                                  "active_vertices_connected raises on Python constants", dict(scen, error=r[1]))
                     continue
-                got = graphcap.z3_session(r[1][0])([])
+                s, vs, _ = r[1]
+                if any(is_prim_node(c) for c in s.constraints):
+                    ctx.count("search-scenario:native-node-where-auxiliary-encoding-expected")
+                    continue  # examined through run_patterns
+                got = graphcap.z3_session(s)([(v, b) for v, b in zip(vs, pat) if v is not None])
                 if got != want:
-                    report(key_of(n, es, acyclic, pat, "const"), got, want, acyclic,
-                           {"n": n, "edges": es, "acyclic": acyclic, "how": "const", "grid": None,
-                            "pattern": [int(b) for b in pat], "expected_satisfiable": want, "observed_satisfiable": got})
+                    report(key_of(n, es, acyclic, pat, tag), got, want, acyclic,
+                           dict(scen, expected_satisfiable=want, observed_satisfiable=got))
+
+    # two calls on ONE Solver (two graphs, or one Graph object before / after add_edge, or the same graph twice;
+    # separate or the SAME is_active variables): satisfiable iff both calls' patterns are accepted
+    for _ in range(200 if ctx.thorough else (100 if ctx.deep else 50)):
+        n = rng.randint(2, 4)
+        es = graphcap2.mixed_orientation(rng, rng.choice([e for (k, e) in graphcap.all_multigraphs(n, 4) if k == n and e]))
+        mode = rng.choice(["extended", "two-graphs", "twice"])
+        same_vars = rng.random() < 0.4
+        acy = [rng.random() < 0.5, rng.random() < 0.5]
+        cut = rng.randrange(len(es)) if mode == "extended" else len(es)
+        es2 = es if mode != "two-graphs" else graphcap2.mixed_orientation(
+            rng, rng.choice([e for (k, e) in graphcap.all_multigraphs(n, 4) if k == n]))
+        scen = {"two_calls": True, "n": n, "edges": es, "cut": cut, "edges2": es2, "mode": mode, "same_vars": same_vars,
+                "acyclic": acy}
+        r = vlib.guarded(posted_two, scen)
+        key = "avc:two-calls:%s:n=%d:e=%s:cut=%d:e2=%s:same=%d:acyclic=%d%d" % (
+            mode, n, ",".join("%d-%d" % e for e in es), cut, ",".join("%d-%d" % e for e in es2), same_vars, acy[0], acy[1])
+        ctx.count("search-graphs:two-calls-" + mode + ("-same-vars" if same_vars else ""))
+        if r[0] == "err":
+            ctx.violation(key + ":raises", "active_vertices_connected raises on the second call on one Solver",
+                          dict(scen, error=r[1]))
+            continue
+        s, vs1, vs2 = r[1]
+        if any(is_prim_node(c) for c in s.constraints):
+            ctx.count("search-scenario:native-node-where-auxiliary-encoding-expected")
+            continue
+        check = graphcap.z3_session(s)
+        for p1 in graphcap.patterns(n):
+            for p2 in ([p1] if same_vars else graphcap.patterns(n)):
+                want = oracle(n, es[:cut], acy[0], p1) and oracle(n, es2, acy[1], p2)
+                got = check(list(zip(vs1, p1)) + ([] if same_vars else list(zip(vs2, p2))))
+                ctx.prop_case("two-calls-sat-vs-oracle", (key, p1, p2))
+                if got != want:
+                    ctx.violation(key + ":p=%s/%s" % (bits(p1).replace(" ", ""), bits(p2).replace(" ", "")),
+                                  "two calls on one Solver: the posted constraints are %s although the two patterns are %s"
+                                  % ("satisfiable" if got else "unsatisfiable",
+                                     "both accepted" if want else "not both accepted"),
+                                  dict(scen, pattern=[int(b) for b in p1], pattern2=[int(b) for b in p2],
+                                       expected_satisfiable=want, observed_satisfiable=got))
 
     # the native operator: the node really posted, decoded and evaluated by the Coq meaning, vs the oracle
     if m is not None:
@@ -512,11 +880,28 @@ def search(ctx):
         reqs, meta = [], []
         prim_graphs = [(n, es) for n, es in graphcap.all_multigraphs(4, 4)] + \
                       [graphcap.random_multigraph(rng, 8, loops=(i % 4 == 0)) for i in range(40)]
+        prim_jobs = [(n, es, None) for n, es in prim_graphs]
+        # hardening round: stored (larger, smaller) / mixed, structured graphs, the native route selected through the
+        # configuration or the argument, other containers, and a Graph object that was used before it was complete
         for n, es in prim_graphs:
+            if es and rng.random() < (1.0 if ctx.thorough else 0.3):
+                prim_jobs.append((n, graphcap2.mixed_orientation(rng, es), "variant"))
+        prim_jobs += [(n, es, "variant") for (_, n, es) in graphcap2.reversed_cycles(6) + graphcap2.structured_graphs()[:8]]
+        for n, es, variant in prim_jobs:
             s = Solver()
             vs = [s.bool_var() for _ in range(n)]
-            r = vlib.guarded(active_vertices_connected, s, vs, graphcap.mk_graph(n, shuffled(rng, es) if False else es),
-                             use_graph_primitive=True)
+            if variant is None:
+                r = vlib.guarded(active_vertices_connected, s, vs, graphcap.mk_graph(n, es), use_graph_primitive=True)
+            else:
+                H = graphcap2.GraphHistory(n, es)
+                for cut in graphcap2.random_cuts(rng, len(es), 2):
+                    hs = Solver()
+                    vlib.guarded(call_raw, hs, [hs.bool_var() for _ in range(n)], H.advance(cut), False,
+                                 rng.random() < 0.5, rng.random() < 0.5, "kw")
+                cfg, ugp = rng.choice([(True, None), (False, True), (True, True)])
+                r = call_impl(s, graphcap2.as_container(rng.choice(graphcap2.CONTAINERS), vs), H.finish(), cfg, False, ugp,
+                              rng.choice(CALL_STYLES))
+                ctx.count("search-graphs:primitive-variant")
             if r[0] == "err" or len(s.constraints) != 1:
                 ctx.violation("avc:primitive:n=%d:e=%s:raises" % (n, ",".join("%d-%d" % e for e in es)),
                               "primitive route does not post exactly one node", {"n": n, "edges": es, "result": repr(r)})
@@ -537,6 +922,12 @@ def search(ctx):
 
     if m is None:
         return
+    # native nodes met where the auxiliary encoding was expected (see run_patterns)
+    for (key, acyclic, want, detail), o in zip(prim_meta, m.batch(prim_reqs)):
+        ctx.prop_case("unexpected-native-node-meaning-vs-oracle", key)
+        if (o == "1") != want:
+            report(key, o == "1", want, acyclic, dict(detail, expected_satisfiable=want, observed_satisfiable=(o == "1"),
+                                                      native_node=True))
     # the Coq specification agrees with the independent oracle
     for (n, es, acyclic, pat, want), o in zip(spec_meta, m.batch(spec_reqs)):
         ctx.count("spec-validation")
@@ -562,12 +953,29 @@ def replay(ctx, rp):
     v = rp.get("violation", {}).get("detail", {})
     if not v or "pattern" not in v or "acyclic" not in v:
         return 0
-    n, es, pat = v["n"], [tuple(e) for e in v["edges"]], [bool(b) for b in v["pattern"]]
+    pat = [bool(b) for b in v["pattern"]]
+    if v.get("two_calls"):
+        s, vs1, vs2 = posted_two(v)
+        p2 = [bool(b) for b in v["pattern2"]]
+        es, es2 = [tuple(e) for e in v["edges"]], [tuple(e) for e in v["edges2"]]
+        got = graphcap.sat_with(s, list(zip(vs1, pat)) + ([] if v["same_vars"] else list(zip(vs2, p2))))
+        want = oracle(v["n"], es[:v["cut"]], v["acyclic"][0], pat) and oracle(v["n"], es2, v["acyclic"][1], p2)
+        print("satisfiable:", got, " oracle:", want)
+        return 1 if got != want else 0
+    n, es = v["n"], [tuple(e) for e in v["edges"]]
     acyclic, how = bool(v["acyclic"]), v.get("how", "vars")
     grid = tuple(v["grid"]) if v.get("grid") else None
-    s, vs = posted(n, es, acyclic, how, pat, grid)
-    fixed = [(x, (not b) if how == "neg" else b) for x, b in zip(vs, pat)]
-    got = graphcap.sat_with(s, fixed)
+    s, vs, _ = posted(n, es, acyclic, how, pat, grid, v.get("opts"), v.get("hist"), v.get("mask"))
+    neg = how in ("neg", "grid-neg")
+    fixed = [(x, (not b) if neg else b) for x, b in zip(vs, pat) if x is not None]
+    if len(s.constraints) == 1 and is_prim_node(s.constraints[0]):
+        env = [False] * len(s.variables)
+        for x, b in fixed:
+            env[x.id] = b
+        got = ctx.model("C04").call("H E %s B %s" % (exprio.show(s.constraints[0]), bits(env))) == "1"
+        print("a native node was posted; its Coq meaning (gsem_avc) under the pattern:", got)
+    else:
+        got = graphcap.sat_with(s, fixed)
     want = oracle(n, es, acyclic, pat)
     print("satisfiable:", got, " oracle:", want)
     return 1 if got != want else 0
